@@ -327,6 +327,57 @@ def inst_where_out(rank, owndata):
                     unit="_elemwise_handle_where", api_replay=api)
 
 
+IDENTITY_SITE = "Array:identity-like-operation-returns-self"
+
+
+def inst_derived_keep_value():
+    """collections derived from x by operations that happen to select / keep everything (x[:], x[...], x[0:n] with the
+    symbolic length n, +x, x.transpose() with the identity permutation, x.astype(x.dtype)) are collections of their own:
+    after x's expression is replaced in place (what x[idx] = v, out=x and compute_chunk_sizes do) they still denote the
+    earlier value"""
+    def body(E):
+        import operator
+
+        from . import catalog
+
+        w = catalog.W(E)
+        x = catalog.source(w, E, "x", (2, 2))
+        other = catalog.p_elemwise(w, operator.neg, x)
+        coll = w.fn(catalog.NC, "new_collection")(x.node)
+        n0 = x.node.shape[0]
+        derived = {
+            "x[:]": coll[:], "x[...]": coll[...], "x[0:n]": coll[E.slice(0, n0, None)], "x[:, :]": coll[:, :],
+            "+x": +coll, "x.transpose((0,1))": coll.transpose((0, 1)), "x.astype(x.dtype)": coll.astype(coll.dtype),
+        }
+        old = coll._name
+        coll._replace_expr(other.node)
+        E.ensure("x-itself-changed", coll._name != old)
+        for label, d in derived.items():
+            # these operations return `self` (the test suite asserts `a is a[:]`), so the in-place replacement reaches them:
+            # listed as a known finding under this site; a derived collection that is a distinct object and still changes
+            # would be reported under no site
+            site = IDENTITY_SITE if d is coll else None
+            E.ensure(f"{label}-keeps-its-earlier-value", d._name == old and d.expr._name == old, site=site)
+
+    def api(values):
+        import dask_array as da
+
+        X = np.arange(12.0).reshape(4, 3)
+        bad = []
+        for label, f in {"x[:]": lambda a: a[:], "x[...]": lambda a: a[...], "x[0:n]": lambda a: a[0:4], "x[:, :]": lambda a: a[:, :],
+                         "+x": lambda a: +a, "x.transpose((0,1))": lambda a: a.transpose((0, 1)),
+                         "x.astype(x.dtype)": lambda a: a.astype(a.dtype)}.items():
+            a = da.from_array(X.copy(), chunks=2)
+            d = f(a)
+            a[1, 1] = 100.0
+            if not np.array_equal(d.compute(scheduler="sync"), X):
+                bad.append(label)
+        return dict(ok=not bad, detail=f"derived collections that changed with x[1, 1] = 100: {bad}")
+
+    return Instance("derived_collections_keep_their_value[identity-like operations]", body, {}, unit="Array.__getitem__/__pos__/"
+                    "transpose/astype + _replace_expr", api_replay=api)
+
+
 def _program_body(E, w, prog):
     """ufunc(..., where=mask, out=o) programs through the real Elemwise node, optimizer and kernels: the result is
     where(mask, op(...), o) -- also when two such calls that differ only in their out= target meet in one graph"""
@@ -347,7 +398,7 @@ def _program_instances(tier):
 
 def instances(tier):
     q = tier == "quick"
-    out = _program_instances(tier)
+    out = _program_instances(tier) + [inst_derived_keep_value()]
     steps = [None, 1, 2, -1, -2] if q else [None, 1, 2, 3, -1, -2, -3]
     for m in ([1, 2, 3] if q else [1, 2, 3, 4]):
         for st in steps:
